@@ -71,6 +71,8 @@ class SimInverter:
         return F.rtu_write_answer(addr, fn, reg, n) if self.fr == "rtu" else F.tcp_write_answer(tx, addr, fn, reg, n)
 
     def _aa55(self, req: bytes) -> bytes | None:
+        if self.aa55.get("mute"):
+            return None
         ctl, fn, ln = req[4], req[5], req[6]
         pl = req[7:7 + ln]
         # response type: function | 0x80, except the two commands for which the library expects another one
